@@ -264,20 +264,29 @@ def run_sender(script):
     peer = RP.ConnectedRemotePeer(lp, '10.0.0.1', 2412, 'OUTGOING', None, sock, 0)
     msgs = []
     prevs = []
+    snaps = []     # after every top-level call: (operations so far, bytes written, bytes queued, write registration)
+
+    def snap():
+        snaps.append((len(trace), b''.join(sock.pieces),
+                      bytes(peer.send_buffer) + b''.join(bytes(x) for x in peer.send_backlog),
+                      1 if lp.selector.writing else 0))
     for mhex, phex in script['msgs']:
         m = M.Message.stream_deserialize(io.BytesIO(bytes.fromhex(mhex)))
         prev = None if phex is None else M.MessageHeader.stream_deserialize(io.BytesIO(bytes.fromhex(phex)))
         peer.send_message(m, prev_header=prev)
-        queued = peer.send_backlog[-1] if peer.send_backlog else peer.send_buffer
-        trace.append([0, bytes(queued[8:])])
+        trace.append([0, None])      # the payload (header + message) is filled in from the written stream afterwards
+        snap()
         msgs.append(m)
         prevs.append(prev)
         while lp.selector.writing and rng.random() < 0.6:
             peer.handle_can_send(sock)
+            snap()
     guard = 0
     while lp.selector.writing and guard < 100000:
         peer.handle_can_send(sock)
+        snap()
         guard += 1
+    peer.skv_snaps = snaps
     peer.skv_trace = trace
     peer.skv_writing = lp.selector.writing
     return sock.pieces, msgs, prevs, peer, guard
@@ -310,8 +319,10 @@ def judge_sender(script):
     got, e3, st = impl_feed(pieces)
     if got != frames or e3 != 0 or st != [b'', False, None]:
         return head + '; the real receiver fed with the written pieces delivers something else', pieces, frames
-    judge_sender.last = (peer.skv_trace, [wire, bytes(peer.send_buffer), [bytes(x) for x in peer.send_backlog],
-                                          1 if peer.skv_writing else 0])
+    it = iter(frames)
+    tr = [[0, next(it)] if k == 0 else [k, v] for k, v in peer.skv_trace]
+    # observables only: bytes written, bytes still queued (buffer and backlog together), write registration
+    judge_sender.last = [(tr[:k], [w, q, wr]) for (k, w, q, wr) in peer.skv_snaps]
     return None, pieces, frames
 
 
@@ -340,7 +351,7 @@ def sender_level(ck, tier, r):
         reqs.append(('send_stream', [], list(frames)))
         wires.append((wire, frames))
         if not bad:
-            machine.append(judge_sender.last)
+            machine.extend(judge_sender.last)
     if r.ok:
         outs = model.run_batch(reqs)
         for (wire, frames), o in zip(wires, outs):
@@ -352,12 +363,12 @@ def sender_level(ck, tier, r):
         # the state machine: the operations as the real code performed them, replayed on the model s_run
         outs = model.run_batch([('sender_run', [], tr) for tr, _ in machine])
         for (tr, fin), o in zip(machine, outs):
-            if [o[0], o[1], list(o[2]), o[3]] != fin:
+            if [o[0], o[1] + b''.join(o[2]), o[3]] != fin:
                 ck.disagree('ConnectedRemotePeer send_buffer/send_backlog/writability vs model Framing.s_run',
                             {'sender': True, 'ops': [[k, v.hex() if k == 0 else v] for k, v in tr],
                              'impl': repr(fin)[:400], 'model': repr(o)[:400]})
-        ck.extra['sender_state_machine_traces'] = len(machine)
-        ck.extra['sender_state_machine_ops'] = sum(len(tr) for tr, _ in machine)
+        ck.extra['sender_state_machine_states_compared'] = len(machine)
+        ck.extra['sender_state_machine_states_not_drained'] = sum(1 for _, f in machine if f[1])
 
 
 def run(tier, seed):
